@@ -208,6 +208,9 @@ def char_units(repo: Repo, rep):
                             # SourcePosition's own fields (self.col_offset inside the dataclass) are character columns
                             if isinstance(base, ast.Name) and base.id == "self" and f.cls is not None and f.cls.name == "SourcePosition":
                                 continue
+                            # `<range>.start.col_offset` / `<range>.end.col_offset`: the fields of a SourceRange are SourcePositions
+                            if isinstance(base, ast.Attribute) and base.attr in ("start", "end") and not any(k in norm(base).lower() for k in ("node", "token", "tok")):
+                                continue
                             bad += 1
                             rep.violation("R-CHAR-UNITS", f, c, f"{f.qualname} builds a source position from the ast byte offset `{norm(x)}`: with non-ASCII text before the call on the same line the edit lands at the wrong column and corrupts the file", construct=norm(x))
     # the other direction: a character column must not be *converted* as if it were a byte offset
@@ -289,6 +292,27 @@ def wholefile_gate(repo: Repo, rep):
         rep.undecided("R-WHOLEFILE-GATE", "no gated whole-file formatting found")
 
 
+def import_table(dv):
+    """`[name for name, needed in (("external", <cond>), ("HasRepr", <cond>)) if needed]` -> [(name, cond expression)]; None if dv is not
+    such a table comprehension"""
+    if not isinstance(dv, (ast.ListComp, ast.GeneratorExp)) or len(dv.generators) != 1:
+        return None
+    g = dv.generators[0]
+    if not (isinstance(g.target, ast.Tuple) and len(g.target.elts) == 2 and all(isinstance(x, ast.Name) for x in g.target.elts)):
+        return None
+    nm, flag = g.target.elts[0].id, g.target.elts[1].id
+    if not (isinstance(dv.elt, ast.Name) and dv.elt.id == nm and len(g.ifs) == 1 and isinstance(g.ifs[0], ast.Name) and g.ifs[0].id == flag):
+        return None
+    if not isinstance(g.iter, (ast.Tuple, ast.List)):
+        return None
+    out = []
+    for row in g.iter.elts:
+        if not (isinstance(row, (ast.Tuple, ast.List)) and len(row.elts) == 2 and isinstance(row.elts[0], ast.Constant)):
+            return None
+        out.append((row.elts[0].value, row.elts[1]))
+    return out
+
+
 def import_only(repo: Repo, rep):
     rep.rule(
         "R-IMPORT-ONLY",
@@ -315,6 +339,8 @@ def import_only(repo: Repo, rep):
                     dv = def_value(d, v.id)
                     if isinstance(dv, (ast.List, ast.Tuple)):
                         names |= {e.value if isinstance(e, ast.Constant) else "?" for e in dv.elts}
+                    elif import_table(dv) is not None:
+                        names |= {nm_ for nm_, _ in import_table(dv)}
                 for n2 in cfg.live:
                     for cc in node_calls(n2):
                         if isinstance(cc.func, ast.Attribute) and cc.func.attr in ("append", "extend", "add") and isinstance(cc.func.value, ast.Name) and cc.func.value.id == v.id:
@@ -390,7 +416,18 @@ def import_only(repo: Repo, rep):
                 queues.add(g_.iter.id)
     adds = [n for n in cfg.live for c in node_calls(n) if isinstance(c.func, ast.Attribute) and c.func.attr == "append" and norm(c.func.value) in queues]
     conds = [(cnd, "F") for cnd in cfg.conds() if isinstance(cnd.ast, ast.Call) and norm(cnd.ast.func).endswith("contains_import")]
-    if adds and conds and all(edges_dominate(cfg, conds, a) for a in adds):
+    # the queue built by one comprehension whose filter is the negated contains_import() test
+    comp_ok = False
+    for q in queues:
+        for d in defs_of(cfg, q):
+            dv = def_value(d, q)
+            if isinstance(dv, (ast.ListComp, ast.GeneratorExp, ast.SetComp)):
+                tests = [t for g_ in dv.generators for t in g_.ifs]
+                if any(isinstance(t, ast.UnaryOp) and isinstance(t.op, ast.Not) and isinstance(t.operand, ast.Call) and norm(t.operand.func).endswith("contains_import") for t in tests):
+                    comp_ok = True
+    if comp_ok and not adds:
+        rep.ok("R-IMPORT-ONLY", f, f.node, "an import is queued only if contains_import() does not find it (comprehension filter)")
+    elif adds and conds and all(edges_dominate(cfg, conds, a) for a in adds):
         rep.ok("R-IMPORT-ONLY", f, adds[0].ast, "an import is added only if contains_import() does not find it")
     else:
         rep.violation("R-IMPORT-ONLY", f, f.node, "ensure_import adds an import without checking that it is missing (duplicate import lines on every run)", construct="no-contains-check")
